@@ -153,15 +153,20 @@ def cli_part(ctx, exe, items):
         open(p, 'wb').write(A)
         r1 = cli.run_lha(exe, ['t', p], root)
         r2 = cli.run_lha(exe, ['t', '-'], root, stdin=A)           # subprocess feeds stdin through a pipe
+        l1 = cli.run_lha(exe, ['l', p], root)                      # listing skips every member's data
+        l2 = cli.run_lha(exe, ['l', '-'], root, stdin=A)
         f = open(p, 'rb')
         e = {'PATH': '/usr/bin:/bin', 'TZ': 'UTC'}
         r3 = subprocess.run([exe, 't', '-'], stdin=f, capture_output=True, cwd=root, env=e)   # redirected file: seekable stdin
         f.close()
-        return name, A, r1, r2, (r3.returncode, r3.stdout, r3.stderr)
+        return name, A, r1, r2, (r3.returncode, r3.stdout, r3.stderr), l1, l2
     with ThreadPoolExecutor(max_workers=16) as ex:
-        for name, A, r1, r2, r3 in ex.map(one, list(enumerate(items))):
+        for name, A, r1, r2, r3, l1, l2 in ex.map(one, list(enumerate(items))):
             ctx.count('cli_triples')
             ctx.cov['evaluations'] += 1
+            if (l1[0], l1[1]) != (l2[0], l2[1]):
+                ctx.violation('C16-cli-list-differs:pipe', "'lha l %s' and 'cat %s | lha l -' differ: exit %d vs %d, %d vs %d lines of output"
+                              % (name, name, l1[0], l2[0], l1[1].count(b'\n'), l2[1].count(b'\n')), A)
             for tag, r in (('pipe', r2), ('redirect', r3)):
                 if (r[0], r[1]) != (r1[0], r1[1]):
                     ctx.violation('C16-cli-differs:' + tag, "'lha t %s' and 'lha t -' (%s) differ: exit %d vs %d, stdout %r vs %r"
@@ -177,7 +182,21 @@ def run(ctx):
     rnd = random.Random(ctx.seed)
     corp = corpus(ctx.tier, rnd)
     gen = [('generated-%d' % i, arc.archive(c15.random_archive(rnd))) for i in range(20 if ctx.tier == 'quick' else 200)]
-    base = corp + gen
+    # members whose stored size sits on and around powers of two and their multiples (what a block-wise read-and-discard
+    # skip, a seek, and a callback skip must all agree on), each followed by further members
+    sizes = [0, 1, 31, 32, 33, 63, 64, 65, 255, 256, 257, 511, 512, 513, 1023, 1024, 1025, 2048, 4095, 4096, 4097, 8191, 8192, 8193,
+             12288, 16384, 3 * 4096 + 1, 32768, 65535, 65536, 65537, 2 * 65536, 100000]
+    sizes += [rnd.randrange(2, 70000) for _ in range(4 if ctx.tier == 'quick' else 60)]
+    if ctx.tier == 'thorough':
+        sizes += [k * 4096 for k in range(5, 33)] + [k * 512 for k in range(3, 40)] + [1 << 20, (1 << 20) + 1]
+    skipsz = []
+    for j, sz in enumerate(sizes):
+        lv = j % 4
+        ms = [arc.file_member(rnd, '-lh0-', b'first.bin', size=sz, level=lv), arc.file_member(rnd, '-lh5-', b'second.bin', size=40, level=(lv + 1) % 4),
+              arc.file_member(rnd, '-lz4-' if j % 2 else '-lh0-', b'third.bin', size=sizes[(j * 7 + 3) % len(sizes)] % 70000, level=lv),
+              arc.file_member(rnd, '-lh1-', b'fourth.bin', size=9, level=1)]
+        skipsz.append(('skip-size-%d' % sz, arc.archive(ms)))
+    base = corp + gen + skipsz
     # truncations
     trunc = []
     for name, A in (base[:10] if ctx.tier == 'quick' else base[:80]):
@@ -200,11 +219,12 @@ def run(ctx):
         items.append((name + '#p%d' % j, A, [pf]))
     nsh = 16
     core.run_shards(ctx, shard, [(ctx.seed * 71 + i, items[i::nsh], ctx.tier) for i in range(nsh)])
-    cli_part(ctx, exe_cli, base[:60] if ctx.tier == 'quick' else base)
+    cli_part(ctx, exe_cli, (base[:60] + skipsz) if ctx.tier == 'quick' else base)
+    ctx.cov['skip_size_archives'] = len(skipsz)
     ctx.cov['prefix_variants'] = len(prefs)
     ctx.cov['archives'] = len(base)
     ctx.cov['truncated_variants'] = len(trunc)
-    ctx.cov['rule'] = ('(archive, stream kind, prefix) triples; archives = corpus + generated + truncations; prefixes = stub bytes without "-" '
+    ctx.cov['rule'] = ('(archive, stream kind, prefix) triples; archives = corpus + generated + four-member archives whose first/third stored members have sizes on and around powers of two and multiples of 512/4096 + truncations; prefixes = stub bytes without "-" '
                        'and "L" at every length 0..64, around multiples of 12/24, near the 255 KiB limit, random lengths, and marker+decoy forms at '
                        'gaps 0..35; reference = callbacks-with-skip on the bare archive; distinct by (archive, kind, prefix); non-trivial = '
                        'archive has at least one member and the triple is not the reference itself')
